@@ -14,6 +14,7 @@ import ast
 from ..paths import enumerate_paths, PathUnsupported
 from ..report import Finding, AnalysisError
 from .common import *
+from ..shims import Key
 
 KINDS = ["PyFloat", "NumPyFloat32", "NumPyFloat64", "JaxArray"]
 
@@ -381,6 +382,96 @@ def check_train(ctx):
     return out
 
 
+def train_loop_worker(job):
+    """Semantic check of ml.train: the function is abstractly interpreted with its collaborators (get_batches,
+    train_step, map_loss_in_batches, the clock, the optimiser) replaced by recording stubs that feed a given loss
+    history; the number of epochs trained and the model handed back are compared with the statement, for every
+    stopping condition.  Independent of how the loop is written (while / do-while / flag variable)."""
+    repo, kind, param, hist = job
+    it, w = get_interp(repo)
+    ml = it.get_module("ginjax.ml")
+    tr = it.get_module(TRAIN_MOD)
+    ns = tr.__dict__["ns"]
+    log = dict(epochs=0, steps=0, vals=0)
+    train_hist = [h[0] for h in hist]
+    val_hist = [h[1] for h in hist]
+
+    def get_batches(images, batch_size, key=None, devices=None):
+        log["epochs"] += 1
+        if log["epochs"] > len(hist):
+            raise Unsupported("the stubbed loss history is exhausted: training ran longer than %d epochs" % len(hist))
+        return [["xb0", "xb1"], ["yb0", "yb1"]]
+
+    def train_step(map_and_loss, model, optim, opt_state, x, y, aux=None):
+        log["steps"] += 1
+        e = log["epochs"]
+        return "model@%d.%d" % (e, log["steps"]), opt_state, A.Arr((), [train_hist[e - 1]], "float"), aux
+
+    def map_loss_in_batches(*a, **k):
+        log["vals"] += 1
+        return A.Arr((), [val_hist[log["epochs"] - 1]], "float")
+
+    class Clock(object):
+        @staticmethod
+        def time():
+            return 0
+
+    class Optim(object):
+        @staticmethod
+        def init(x):
+            return "opt-state"
+
+    saved = {k: ns.get(k) for k in ("get_batches", "train_step", "map_loss_in_batches", "time")}
+    ns.update(get_batches=get_batches, train_step=train_step, map_loss_in_batches=map_loss_in_batches, time=Clock)
+    problems = []
+    cfg = dict(condition=kind, param=param, history=[list(map(str, h)) for h in hist])
+    try:
+        if kind == "EpochStop":
+            cond = ml.EpochStop(param, 0)
+        elif kind == "TrainLoss":
+            cond = ml.TrainLoss(param[0], param[1], 0)
+        else:
+            cond = ml.ValLoss(param[0], param[1], 0)
+        vx, vy = ("VX", "VY") if kind == "ValLoss" or param == "with-validation" else (None, None)
+        res = attempt(lambda: ml.train("X", "Y", "map_and_loss", "model@0", Key(0), cond, 2, Optim(), vx, vy))
+    finally:
+        for k, v in saved.items():
+            if v is None:
+                ns.pop(k, None)
+            else:
+                ns[k] = v
+    if isinstance(res, Rejected):
+        problems.append(("train-rejected", "train raised: %s" % res.exc, cfg))
+        return dict(cfg=cfg, problems=problems)
+    # reference: the statement's state machine over the fed history
+    def model_after(e):
+        return "model@0" if e == 0 else "model@%d.%d" % (e, 2 * e)
+
+    if kind == "EpochStop":
+        exp_epochs, exp_model = param, model_after(param)
+    else:
+        patience, delta = param
+        series = train_hist if kind == "TrainLoss" else val_hist
+        best, since, best_e, exp_epochs = None, 0, 0, None
+        for e, loss in enumerate(series, start=1):
+            if best is None or loss < best - delta:
+                best, since, best_e = loss, 0, e
+            else:
+                since += 1
+            if since > patience:
+                exp_epochs = e
+                break
+        if exp_epochs is None:
+            return dict(cfg=cfg, problems=[("history", "the fed history does not make the reference stop (box error)", cfg)])
+        exp_model = model_after(best_e)
+    got_model = res[0] if isinstance(res, tuple) else res
+    if log["epochs"] != exp_epochs:
+        problems.append(("train-epochs", "train ran %d epoch(s) with %s(%s) on the loss history %s; the statement gives %d" % (log["epochs"], kind, param, [str(x) for x in (train_hist if kind != "ValLoss" else val_hist)], exp_epochs), cfg))
+    elif got_model != exp_model:
+        problems.append(("train-model", "train handed back %r with %s(%s); the statement gives %r" % (got_model, kind, param, exp_model), cfg))
+    return dict(cfg=cfg, problems=problems)
+
+
 def check_siblings(ctx):
     """TrainLoss.stop and ValLoss.stop must be equal up to train<->val renaming."""
     pm = ctx.pm
@@ -564,7 +655,29 @@ def run(ctx):
     except AnalysisError as e:
         cf_notes.append(str(e))
     ev.extra["cf_notes"] = cf_notes
-    findings += check_train(ctx)
+    try:
+        findings += check_train(ctx)
+    except AnalysisError as e:
+        # the syntactic form of the loop is not recognised: the semantic train-loop check below decides
+        cf_notes.append(str(e))
+        ev.extra["cf_notes"] = cf_notes
+    # semantic train-loop check (decides): ml.train with stubbed collaborators, fed loss histories
+    H = [(5, 9), (4, 8), (4, 9), (3, 7), (3, 7), (3, 8), (2, 8), (2, 9), (2, 9), (2, 9), (2, 9), (2, 9)]
+    lj = [(ctx.repo, "EpochStop", n, H) for n in (0, 1, 2, 3)]
+    lj += [(ctx.repo, "EpochStop", n, H) for n in (1,)]
+    for patience in (0, 1, 2, 3):
+        for delta in (0, 1):
+            lj.append((ctx.repo, "TrainLoss", (patience, delta), H))
+            lj.append((ctx.repo, "ValLoss", (patience, delta), H))
+    lj.append((ctx.repo, "TrainLoss", (1, 0), [(3, 1), (3, 1), (2, 1), (2, 1), (2, 1), (2, 1)]))
+    lj.append((ctx.repo, "ValLoss", (1, 0), [(1, 2), (1, 2), (1, 1), (1, 1), (1, 1), (1, 1)]))
+    n_loop = 0
+    for job, r in ctx.pairs(train_loop_worker, lj):
+        n_loop += 1
+        ev.obligation("train-loop", not r["problems"], (job[1], str(job[2]), len(job[3])), sample=r["cfg"] if n_loop % 7 == 0 else None)
+        for kind, what, cfgd in r["problems"]:
+            findings.append(Finding("C19", "C19.TRAIN." + kind, "train", what, pm.path(TRAIN_MOD), pm.func(TRAIN_MOD, "train").lineno, cfgd, kind + ":" + job[1]))
+    ev.instances("C19.TRAIN.loop_runs", n_loop, floor=20)
     # semantic transition check (decides): abstract interpretation of stop() on representatives of every order type
     tj = []
     for clsname, mi in (("TrainLoss", 2), ("ValLoss", 3)):
